@@ -230,5 +230,6 @@ func withAuthorizerBurnMerged() eventMergeMiddleware {
 }
 
 func mergeAddBridgeMintEvents() *eventsMergerImpl[BridgeMint] {
-	return newEventsMerger[BridgeMint](TagAddBridgeMint, withUniqueEventOverwrite())
+	// every mint counts toward its signers' totals: keep all of them, also several of one client
+	return newEventsMerger[BridgeMint](TagAddBridgeMint)
 }
